@@ -673,18 +673,7 @@ fn truncate_str(s: &str, n: usize) -> String {
     }
 }
 
-fn style_to_json(s: &TextStyle) -> J {
-    json!({"ws": s.ws, "escape_non_ascii": s.escape_non_ascii, "escape_slash": s.escape_slash, "upper_hex": s.upper_hex})
-}
-
-fn style_from_json(j: &J) -> TextStyle {
-    TextStyle {
-        ws: j["ws"].as_u64().unwrap_or(0) as u8,
-        escape_non_ascii: j["escape_non_ascii"].as_bool().unwrap_or(false),
-        escape_slash: j["escape_slash"].as_bool().unwrap_or(false),
-        upper_hex: j["upper_hex"].as_bool().unwrap_or(false),
-    }
-}
+use crate::mval::{style_from_json, style_to_json};
 
 impl Scenario for Corrupt {
     type Case = Case;
@@ -883,7 +872,7 @@ impl Scenario for Corrupt {
             Case::Text { doc, style } => {
                 let mut out = vec![];
                 let plain = TextStyle::default();
-                if style.ws != 0 || style.escape_non_ascii || style.escape_slash {
+                if style.ws != 0 || style.escape_non_ascii || style.escape_slash || style.trail != 0 || style.num_form != 0 {
                     out.push(Case::Text { doc: doc.clone(), style: plain });
                 }
                 for d in shrink::shrink_tree(doc) {
